@@ -1,13 +1,16 @@
 """C10 - the regex engine is total (DESIGN 5/C10).
 
-(a) TLC model-checks the budget model of the backtracking VM (spec/RegexVM.tla): design variant (all invariants + termination)
-    and as-is variant (the sub-matcher loops have no step budget: SubStepBound must fail), and the laws of the pattern acceptor.
+(a) TLC model-checks the budget model of the backtracking VM (spec/RegexVM.tla): design variant (all invariants + termination),
+    as-is variant (the sub-matcher loops have no step budget: SubStepBound must fail), the variant in which every run paces polling
+    with its own step count (PollBound and LateBound must fail), and the laws of the pattern acceptor.
 (b) construction: every string over the metacharacter vocabulary up to the tier's length (the spec gives vocabulary and length)
     through the package API, a literal, RegExp(), new RegExp() and as a string pattern of String.prototype.match / search; flag
-    strings; oversized / truncated specials, huge counts over empty bodies (compile work counted).  TLC judges outcome typing,
-    agreement with RegexSem's acceptor (accept / reject / outside), agreement of the string channels with new RegExp().
-(c) matching: catastrophic families x subject lengths x {api, api with deadline, script, script with deadline}, steps / stack /
-    polls counted through the guarded hook, compared by TLC with the model's bounds.
+    strings; oversized / truncated specials, huge counts over empty bodies (compile work counted), numeric payloads (every construct
+    that carries a number x magnitudes up to 16^5000 x malformed numerals).  TLC judges outcome typing, agreement with RegexSem's
+    acceptor resp. the numeric form's rule (accept / reject / outside), agreement of the string channels with new RegExp().
+(c) matching: long-run (catastrophic) and short-run families x subject lengths x run configurations (package API x poll interval;
+    script level x entry point x flags x bare / try-catch) x deadlines in steps on the virtual clock; steps / stack / polls / steps
+    after the deadline counted through the guarded hook, compared by TLC with the model's bounds.
 (d) case folding: the i flag against subjects with characters whose case mapping is several characters or leaves ASCII; outcome
     typing, and match / null where the documented ASCII-only folding rule (RegexSem) decides it."""
 import itertools, json, os, random, time
